@@ -127,6 +127,7 @@ type Engine struct {
 	unwindViolation string
 	freezeGlobalValues bool
 	schedOnlyChan      bool
+	deadlockViolation  string
 	files              map[string]string
 	syncMaps           map[*value]*omap
 }
@@ -261,6 +262,7 @@ func (e *Engine) resetPath(prefix []Decision) {
 	e.fbCache = nil
 	e.unwindViolation = ""
 	e.schedOnlyChan = false
+	e.deadlockViolation = ""
 	e.files = nil
 	e.syncMaps = nil
 	e.MaxForks = 100000
@@ -880,6 +882,12 @@ func (e *Engine) RunPath(fn *ssa.Function, prefix []Decision) (res PathResult, a
 		a.Reached++
 		a.Violated++
 		e.recordViolation(e.unwindViolation, res.Msg, nil)
+	}
+	if res.Status == "deadlock" && e.deadlockViolation != "" {
+		a := e.site(e.deadlockViolation)
+		a.Reached++
+		a.Violated++
+		e.recordViolation(e.deadlockViolation, res.Msg, nil)
 	}
 	if res.Status == "crash" {
 		// an uncaught panic on the harness goroutine is the host-crash event
